@@ -126,6 +126,26 @@ def site_assign_elem(a, b, e):
     return [e] + list(a[1:]), r.values, False, [], []
 
 
+def site_assign_series_fill(a, b, e):
+    '''a Series value that lacks one of the addressed labels: the value is aligned first, the missing label receives the fill value'''
+    n = len(a)
+    if n < 2:
+        raise _Skip()
+    v = sf.Series(a[:1], index=_labels(1))
+    r = sf.Series(a, index=_labels(n)).assign[_labels(2)](v, fill_value=e)
+    return [a[0], e] + list(a[2:]), r.values, False, [], []
+
+
+def site_assign_loc_series_fill_rev(a, b, e):
+    '''the same through .loc with the value's labels in another order and one extra label'''
+    n = len(a)
+    if n < 3:
+        raise _Skip()
+    v = sf.Series(a[[2, 0]], index=[_labels(3)[2], _labels(1)[0]])
+    r = sf.Series(a, index=_labels(n)).assign.loc[_labels(3)](v, fill_value=e)
+    return [a[0], e, a[2]] + list(a[3:]), r.values, False, [], []
+
+
 def site_assign_array(a, b, e):
     k = min(len(a), len(b))
     r = sf.Series(a, index=_labels(len(a))).assign.iloc[:k](b[:k])
@@ -445,7 +465,7 @@ def main(ctx):
         ctx.exhaustive = True
     # ---- V: merge sites
     events = []
-    ELEM_SITES = ('row_iloc_object_number', 'row_loc_object_float', 'row_loc_cols_object_number', 'frame_fillna', 'frame_fillna_2d', 'reindex_fill', 'frame_reindex_both_fill', 'frame_reindex_disjoint_rows_fill', 'shift_fill', 'assign_elem', 'frame_assign_elem', 'frame_concat_cols_fill', 'from_records', 'frame_from_elements', 'frame_from_element_items', 'frame_from_records_items', 'series_from_items',
+    ELEM_SITES = ('row_iloc_object_number', 'row_loc_object_float', 'row_loc_cols_object_number', 'frame_fillna', 'frame_fillna_2d', 'reindex_fill', 'frame_reindex_both_fill', 'frame_reindex_disjoint_rows_fill', 'shift_fill', 'assign_elem', 'assign_series_fill', 'assign_loc_series_fill_rev', 'frame_assign_elem', 'frame_concat_cols_fill', 'from_records', 'frame_from_elements', 'frame_from_element_items', 'frame_from_records_items', 'series_from_items',
                   'series_from_list', 'series_from_list_rev', 'index_go_append', 'fillna')
 
     def emit(name, da, db, e):
